@@ -233,7 +233,7 @@ func C01(p *Prog, r *Run) {
 				return false
 			}
 			// (a) no path from the creation to an insertion that avoids the haveNode test
-			path := FindPath(p, PathQuery{Fn: fn, StartAfter: c, Explored: &r.PathsExplored, Target: isInsert,
+			path := c01FindPath(p, PathQuery{Fn: fn, StartAfter: c, Explored: &r.PathsExplored, Target: isInsert,
 				Avoid: func(in ssa.Instruction) bool {
 					for _, h := range hn {
 						if in == ssa.Instruction(h) {
@@ -253,7 +253,7 @@ func C01(p *Prog, r *Run) {
 				}
 				arg := tm.Of(h.Common().Args[1])
 				okArg := arg.Op == "field" && arg.Name == "Id"
-				path := FindPath(p, PathQuery{Fn: fn, StartEdge: [2]*ssa.BasicBlock{blk, blk.Succs[0]}, Explored: &r.PathsExplored, Target: isInsert})
+				path := c01FindPath(p, PathQuery{Fn: fn, StartEdge: [2]*ssa.BasicBlock{blk, blk.Succs[0]}, Explored: &r.PathsExplored, Target: isInsert})
 				r.Check(path == nil && okArg, "add-node.reuse.rejects", p.Pos(h.Pos()), "when the genome already has the node nothing is inserted", "after haveNode reported that the node id is present the insertion can still happen (or the id tested is not the new node's)", path...)
 			}
 		}
